@@ -655,6 +655,10 @@ func genSkeleton() string {
 	b.WriteString("def simpleLockUses : List (String × Bool × List (Nat × String)) := [\n  " + strings.Join(genSimpleLocks(), ",\n  ") + "\n]\n")
 	b.WriteString("\n/-- the same table for kvs/kvs.go (methods of *KVS; there are no bodies) -/\n")
 	b.WriteString("def kvsLockUses : List (String × Bool × List (Nat × String)) := [\n  " + strings.Join(genLockUses("kvs", "kvs.go"), ",\n  ") + "\n]\n")
+	b.WriteString("\n/-- the commit paths of package fstxn (fstxn/commit.go), calls in source order: (function, [(0, wait argument of the\n    journal's CommitWait) | (1, a call that gives the inode locks back: postCommit, releaseInodes, Abort) |\n    (2, wait argument of the package's own commitWait) | (3, delegation to Commit / CommitData) | (4, Flush)]) -/\n")
+	b.WriteString("def commitPaths : List (String × List (Nat × String)) := [\n  " + strings.Join(genCommitPaths(), ",\n  ") + "\n]\n")
+	b.WriteString("\n/-- every function outside fstxn/commit.go that commits without waiting (calls `CommitUnstable`) -/\n")
+	b.WriteString("def unstableCommitters : List String := [" + strings.Join(genUnstableCommitters(), ", ") + "]\n")
 	b.WriteString("\nend GoNfsd.Gen.Skeleton\n")
 	return b.String()
 }
@@ -1098,5 +1102,95 @@ func genLockUses(dir, file string) []string {
 			out = append(out, fmt.Sprintf("(%s, %s, [%s])", q(fd.Name.Name), body, strings.Join(toks, ", ")))
 		}
 	}
+	return out
+}
+
+// genCommitPaths: model M14 (Model/Reveal) needs the inode locks to be given back only after the
+// journal's waiting commit has returned; only an unstable WRITE may commit without waiting.
+func genCommitPaths() []string {
+	fset := token.NewFileSet()
+	f, err := parser.ParseFile(fset, filepath.Join(repo, "fstxn", "commit.go"), nil, 0)
+	if err != nil {
+		fail("commit paths: %v", err)
+	}
+	var out []string
+	for _, d := range f.Decls {
+		fd, ok := d.(*ast.FuncDecl)
+		if !ok || fd.Body == nil {
+			continue
+		}
+		var toks []string
+		ast.Inspect(fd.Body, func(x ast.Node) bool {
+			ce, ok := x.(*ast.CallExpr)
+			if !ok {
+				return true
+			}
+			se, ok := ce.Fun.(*ast.SelectorExpr)
+			if !ok {
+				return true
+			}
+			arg := ""
+			if len(ce.Args) == 1 {
+				arg = types.ExprString(ce.Args[0])
+			}
+			switch se.Sel.Name {
+			case "CommitWait":
+				toks = append(toks, "(0, "+q(arg)+")")
+			case "postCommit", "releaseInodes", "Abort":
+				toks = append(toks, "(1, "+q(se.Sel.Name)+")")
+			case "commitWait":
+				toks = append(toks, "(2, "+q(arg)+")")
+			case "Commit", "CommitData":
+				toks = append(toks, "(3, "+q(se.Sel.Name)+")")
+			case "Flush":
+				toks = append(toks, "(4, \"\")")
+			}
+			return true
+		})
+		if len(toks) > 0 {
+			out = append(out, fmt.Sprintf("(%s, [%s])", q(fd.Name.Name), strings.Join(toks, ", ")))
+		}
+	}
+	return out
+}
+
+func genUnstableCommitters() []string {
+	var out []string
+	for _, dir := range []string{"nfs", "shrinker", "dir", "inode", "alloctxn", "fstxn"} {
+		ents, err := os.ReadDir(filepath.Join(repo, dir))
+		if err != nil {
+			continue
+		}
+		for _, e := range ents {
+			n := e.Name()
+			if !strings.HasSuffix(n, ".go") || strings.HasSuffix(n, "_test.go") || (dir == "fstxn" && n == "commit.go") {
+				continue
+			}
+			fset := token.NewFileSet()
+			f, err := parser.ParseFile(fset, filepath.Join(repo, dir, n), nil, 0)
+			if err != nil {
+				fail("unstable committers: %v", err)
+			}
+			for _, d := range f.Decls {
+				fd, ok := d.(*ast.FuncDecl)
+				if !ok || fd.Body == nil {
+					continue
+				}
+				calls := false
+				ast.Inspect(fd.Body, func(x ast.Node) bool {
+					if ce, ok := x.(*ast.CallExpr); ok {
+						if se, ok := ce.Fun.(*ast.SelectorExpr); ok && (se.Sel.Name == "CommitUnstable" || se.Sel.Name == "commitWait") {
+							calls = true
+						}
+					}
+					return true
+				})
+				if calls {
+					out = append(out, q(dir+"."+fd.Name.Name))
+				}
+			}
+		}
+	}
+	sort.Strings(out)
 	return out
 }
